@@ -52,7 +52,8 @@ structure DState where
   ctl : Ctl := ⟨[], false⟩
   st : Option CState := none
 
-def monitors (c : Spec.Ctx) (j : Journal) : List String :=
+def monitors (c : Spec.Ctx) (j : Journal) (fatalHere : Bool) : List String :=
+  ((Spec.C19.scanBad c j fatalHere).map (fun t => "C19|" ++ t)) ++
   (if Spec.C01.holds c j then [] else ["C01|" ++ ";".intercalate (Spec.C01.bad c j)]) ++
   (if Spec.C03.holds c j then [] else ["C03"]) ++
   (if Spec.C04.holds c j then [] else ["C04"]) ++
@@ -104,7 +105,7 @@ def handleScan (ds : DState) (sc : ScanCase) : DState × Json :=
           let stR : CState := { st with prov := match (refresh o 0 st.prov).val with | some p => p | none => st.prov }
           match ctxFor ds.ctl stR c sc with
           | none => []
-          | some ctx => (monitors ctx ob.j).map (fun m => match m.splitOn "|" with
+          | some ctx => (monitors ctx ob.j (sc.obs.outcome == "fatal:not-in-group" && (sc.obs.recs.getLast?.map (·.name)) == some ob.name)).map (fun m => match m.splitOn "|" with
             | [p, d] => p ++ ":" ++ ob.name ++ ":" ++ d
             | _ => m ++ ":" ++ ob.name))
     let diffs := dOutcome ++ dPre ++ dRecs ++ dStates
